@@ -60,6 +60,7 @@ func enumerate(fset *token.FileSet, f *ast.File, name string) []*mutant {
 		out = append(out, &mutant{File: name, Line: p.Line, Col: p.Column, Op: op, Orig: src(fset, n), Repl: repl, apply: apply})
 	}
 	inConst := map[ast.Node]bool{}
+	narrowed := map[ast.Node]bool{}
 	ast.Inspect(f, func(n ast.Node) bool {
 		if g, ok := n.(*ast.GenDecl); ok && g.Tok == token.IMPORT {
 			return false
@@ -85,7 +86,7 @@ func enumerate(fset *token.FileSet, f *ast.File, name string) []*mutant {
 			}
 		case *ast.UnaryExpr:
 			if x.Op == token.NOT {
-					add(x, "not", "!(!e)", func() { x.X = &ast.UnaryExpr{Op: token.NOT, X: &ast.ParenExpr{X: x.X}} })
+				add(x, "not", "!(!e)", func() { x.X = &ast.UnaryExpr{Op: token.NOT, X: &ast.ParenExpr{X: x.X}} })
 			}
 		case *ast.BasicLit:
 			if x.Kind == token.INT && !inConst[x] {
@@ -101,6 +102,9 @@ func enumerate(fset *token.FileSet, f *ast.File, name string) []*mutant {
 					add(x, "lit+1", render(v+1), func() { x.Value = render(v + 1) })
 					if v > 0 {
 						add(x, "lit-1", render(v-1), func() { x.Value = render(v - 1) })
+					}
+					if v > 1 {
+						add(x, "lit0", "0", func() { x.Value = "0" })
 					}
 				}
 			}
@@ -135,11 +139,25 @@ func enumerate(fset *token.FileSet, f *ast.File, name string) []*mutant {
 		case *ast.CallExpr:
 			// int(e) -> int(uint16(e)), len(e) -> int(uint16(len(e))): the 16-bit truncation this
 			// code base is prone to
-			if id, ok := x.Fun.(*ast.Ident); ok && len(x.Args) == 1 {
-					switch id.Name {
+			if id, ok := x.Fun.(*ast.Ident); ok && len(x.Args) == 1 && !narrowed[x] {
+				wrap := func(op, inner string) {
+					add(x, op, id.Name+"("+inner+"(...))", func() {
+						x.Args[0] = &ast.CallExpr{Fun: ast.NewIdent(inner), Args: []ast.Expr{x.Args[0]}}
+					})
+				}
+				switch id.Name {
 				case "int":
-					add(x, "trunc16", "int(uint16(...))", func() {
-						x.Args[0] = &ast.CallExpr{Fun: ast.NewIdent("uint16"), Args: []ast.Expr{x.Args[0]}}
+					wrap("trunc16", "uint16")
+				case "uint16":
+					wrap("narrow8", "uint8")
+				case "uint32", "uint64", "int64":
+					wrap("narrow16", "uint16")
+				case "len":
+					// len(e) -> int(uint16(len(e))): a length kept in 16 bits
+					add(x, "len16", "int(uint16(len(...)))", func() {
+						inner := &ast.CallExpr{Fun: ast.NewIdent("len"), Args: x.Args}
+						x.Fun = ast.NewIdent("int")
+						x.Args = []ast.Expr{&ast.CallExpr{Fun: ast.NewIdent("uint16"), Args: []ast.Expr{inner}}}
 					})
 				}
 			}
